@@ -186,7 +186,7 @@ func (vm *VM) convertPanic(msg any) error {
 		}
 	case OpDelete:
 		if err, ok := msg.(runtime.Error); ok {
-			if s := err.Error(); strings.HasPrefix(s, "hash of unhashable type: ") {
+			if s := err.Error(); isUnhashableTypeError(s) {
 				return vm.newPanic(runtimeError(s))
 			}
 		}
@@ -248,8 +248,7 @@ func (vm *VM) convertPanic(msg any) error {
 	case OpSetMap, -OpSetMap:
 		if err, ok := msg.(runtime.Error); ok {
 			s := err.Error()
-			if s == "assignment to entry in nil map" ||
-				strings.HasPrefix(s, "runtime error: hash of unhashable type ") {
+			if s == "assignment to entry in nil map" || isUnhashableTypeError(s) {
 				return vm.newPanic(runtimeError(s))
 			}
 		}
